@@ -49,6 +49,8 @@ struct { bool has; uint64_t closed; size_t cur; bool idx_has; uint64_t idx_val; 
   __CPROVER_loop_invariant((SD_W_DONE && !W0.closed && W0.role == Role_ClientConnected && W0.fd == GFD) ==> !self->_tags.has) \
   __CPROVER_loop_invariant((SD_W_DONE && !W0.closed && W0.role != Role_ClientConnected && W0.pkey == GPK) ==> !self->_peerIndex.has) \
   __CPROVER_loop_invariant((!P0.idx_has ==> !self->_peerIndex.has) && (!P0.tag_has ==> !self->_tags.has)) \
+  __CPROVER_loop_invariant((G.cl.gfd_closed ==> !self->_tags.has) && (!G.cl.gfd_closed ==> self->_tags.has == P0.tag_has)) \
+  __CPROVER_loop_invariant((SD_W_DONE && !W0.closed && W0.fd == GFD && W0.role == Role_ClientConnected) ==> G.cl.gfd_closed) \
   __CPROVER_decreases(toClose.n - iora_j))
 /* drain_residual, loop 1: over the residual commands.  Witness command at the arbitrary position GQ (its session id is GSID when it is a Connect/Via):
  * it has been dealt with iff GQ < j - its promise (if any) failed once, and - C02 - an id already handed out by connect()/connectViaListener() notified once. */
